@@ -488,9 +488,9 @@ def gen_reject(rng, op, snap, stale):
     replace_tensor: the transposed tensor handed over WITHOUT its permutation, or with a permutation that does not
               bring it back to the node's shape (only when the shapes then really differ);
     insert_identity: the two nodes in the wrong order, or two nodes that are no neighbours.
-    Only rejections the library decides BEFORE it starts writing are generated (a rename to an identifier in use and a
-    split whose two specifications both claim the parent / root are rejected half-way by the unchanged library, see
-    the coverage text). Returns the op or None when no such variant exists here."""
+    Only rejections the library decides BEFORE it starts writing are generated (a split whose two specifications both
+    claim the parent / root is rejected half-way by the library, see the coverage text; a rename to an identifier in use
+    was, until repo fix 7db90c1, and is generated since). Returns the op or None when no such variant exists here."""
     nodes = {n[0]: n for n in snap["nodes"]}
     ids = list(nodes)
     gone = stale() or "nonexistent"
@@ -526,6 +526,10 @@ def gen_reject(rng, op, snap, stale):
             d["children"] = d["children"] + [wrong]
         return op
     if k == "rename":
+        taken = [x for x in ids if x != op[2]]
+        if taken and rng.random() < 0.5:
+            return ["rename", rng.choice(taken), op[2]]                         # the new identifier is in use (refused before
+                                                                                 # anything moves since repo fix 7db90c1)
         return ["rename", op[1] if op[1] != op[2] else gone + "_", gone]
     if k == "access":
         return ["access", gone]
@@ -813,8 +817,9 @@ class C02(Prop):
             "as it was: root, node and tensor key orders, links, leg permutations, recorded shapes and stored arrays identical, except that a node NAMED by the call may have had "
             "its pending permutation carried out exactly as a plain access does (stored array = old array transposed by it, permutation reset; counted in the distribution), "
             "well-formed, same dense contraction; the model's step returns an error, its store is compared with the state before the call, and the observed accesses are "
-            "replayed on it as `Access` steps so that the exact tie goes on. Only rejections decided before the library starts writing are generated: a rename to an identifier "
-            "IN USE and a split whose two specifications both claim the parent / root are rejected half-way by the unchanged library (reported to the lead, not generated). "
+            "replayed on it as `Access` steps so that the exact tie goes on. Only rejections decided before the library starts writing are generated: a split whose two specifications both "
+            "claim the parent / root is rejected half-way by the library (inadmissible specification = stated precondition; not generated); a rename to an identifier IN USE by another node "
+            "was rejected half-way too until repo fix 7db90c1 (found by this family) and is generated since. "
             "COMPOSITE contractions (`allch`, half of the cases; distribution `contract_children:<0|1|2|3+> children:<default|own|fresh> id`): the public "
             "contract_all_children(node, new_identifier) on the node with the most children or a random one (a leaf: nothing happens), identifier default (None = the node's "
             "own), the node's own given explicitly, or fresh; modelled as the sequence Contract(node, child1, new), Contract(new, child2, new), ... of the Coq model in the "
